@@ -334,7 +334,7 @@ func (r *Run) InflightDone() {
 // and the shard exits with status 3. vcheck decides whether a hang is a
 // violation (properties about termination) or inconclusive (all others).
 func (r *Run) watchdog() {
-	limit := time.Duration(envInt("VERIF_CASE_TIMEOUT", int64(r.Pick(180, 900)))) * time.Second
+	limit := time.Duration(envInt("VERIF_CASE_TIMEOUT", int64(r.Pick(400, 1200)))) * time.Second
 	for {
 		time.Sleep(500 * time.Millisecond)
 		r.wdMu.Lock()
